@@ -3,6 +3,8 @@ have been observed for a 'held' verdict, and how the evidence is written."""
 from vdriver import Job, NCPU
 
 ENGINES = {
+    'h_crouter': dict(tulz=['router'], spy=True, schedule_sensitive=True, setup_variants=['mon', 'asan'],
+                      kind='multi-threaded histories on ConcurrentSubjectRouter with stamped calls/returns/callbacks and an interval-based linearizability check per notify'),
     'h_pool': dict(tulz=['threading'], spy=True, schedule_sensitive=True, setup_variants=['mon', 'asan'],
                    kind='seeded owner programs with instrumented tasks on ThreadPool, pthread interposer (delays, park table, quiescence oracle); mon and ASan builds'),
     'h_thread': dict(tulz=['threading'], spy=True, schedule_sensitive=True, setup_variants=['mon', 'asan'],
@@ -520,3 +522,37 @@ SPECS['C08'] = dict(
     assumptions=['one owner thread; non-expiring workers', 'termination is decided as absence of a reachable quiescent stuck state in the produced runs'],
     manifest=dict(engine='h_pool', text='Deadlock/quiescence oracle for stop() plus exact post-conditions after every stop and restart, with delays injected exactly in the predicate-evaluated-but-not-blocked window.',
                   note=POOL_NOTE, technique='runtime monitoring: quiescence (deadlock) oracle via pthread interposer + post-condition assertions'))
+
+
+# ----------------------------------------------------------------------------- ConcurrentSubjectRouter (C11)
+
+def crouter_jobs(tier, seed):
+    q = tier == 'quick'
+    jobs = []
+    plan = (('mon', 90), ('asan', 30)) if q else (('mon', 4000), ('asan', 800), ('mon-ndebug', 1200))
+    for vi, (variant, n) in enumerate(plan):
+        for frm, cnt in split(n, 6 if q else 8):
+            jobs.append(Job('h_crouter', variant, pseed(seed, 'C11', vi), frm, cnt, label=variant))
+    return jobs
+
+
+SPECS['C11'] = dict(
+    title='ConcurrentSubjectRouter operations are atomic',
+    jobs=crouter_jobs,
+    parallel=8,
+    require={'any': {'histories': 100, 'notifiesWithCallbacks': 5000, 'snapshotsWithConcurrentWrite': 2000, 'writesOverlappingNotify': 5000, 'unsubscribes': 3000, 'shrinks': 1000}},
+    evidence=lambda agg, samples, distinct, tier: cov(
+        agg.get('histories', 0), distinct,
+        'case = one history: 4-16 threads x 40-140 operations mixing notify (concrete and wildcard patterns), subscribe, USubscription::unsubscribe, shrink, exists, depth over six keys; calls, returns and '
+        'callback entry/exit are stamped by one seq_cst counter; callbacks are slow (yield / 20-170 us sleep) and never call the router; the router\'s Resource gets interposer delays. Rules per notify: no callback '
+        'entered after that observer\'s unsubscribe returned; no write operation called and returned inside one delivery; the reached/missed observers are explained by one instant in [call, return] (exact interval '
+        'arithmetic); nobody reached twice; exists/depth consistent with completed subscriptions. non-trivial = history containing a judged notify that overlapped a subscribe/unsubscribe of a matching observer; '
+        'distinct = fingerprints of the order of operation returns',
+        samples, observed=pick(agg, 'histories', 'ops', 'notifies', 'notifiesWithCallbacks', 'callbacks', 'subscribes', 'unsubscribes', 'shrinks', 'existsCalls', 'depthCalls', 'writesOverlappingNotify',
+                               'snapshotsJudged', 'snapshotsWithConcurrentWrite', 'missedObserversJudged', 'maxThreads', 'delaysInjected', 'lockParks')),
+    assumptions=['mute/unmute and in-callback invalidation are excluded: the quantifier does not list them and they bypass the lock by design', 'callbacks do not call back into the router',
+                 'every rule is a necessary condition of linearizability: the check can miss non-linearizable histories that satisfy all four rules'],
+    manifest=dict(engine='h_crouter', text='Offline checker over stamped call/return/callback events of real multi-threaded histories: four necessary conditions of linearizability decided exactly per notify '
+                  '(many tiny interval problems instead of one NP-hard search), in monitored and ASan builds.',
+                  note='Schedules sampled with delays inside the router\'s lock and CPU pinning; trusted: the stamp counter and the client-boundary recording.',
+                  technique='runtime monitoring: offline history checker (interval linearizability conditions) over stamped events'))
